@@ -298,7 +298,9 @@ class DriverActor(actor.RallyActor):
     @actor.no_retry("driver")  # pylint: disable=no-value-for-parameter
     def receiveMsg_WakeupMessage(self, msg, sender):
         if msg.payload == DriverActor.RESET_RELATIVE_TIME_MARKER:
-            self.driver.reset_relative_time()
+            # wake-ups may fire late: once the benchmark has finished there is no metrics store anymore whose relative time could be reset
+            if not self.driver.finished():
+                self.driver.reset_relative_time()
         elif not self.driver.finished():
             self.post_process_timer += DriverActor.WAKEUP_INTERVAL_SECONDS
             if self.post_process_timer >= DriverActor.POST_PROCESS_INTERVAL_SECONDS:
